@@ -7,6 +7,7 @@ package main
 
 import (
 	"fmt"
+	"strings"
 	"os"
 
 	"github.com/brocaar/lorawan/band"
@@ -342,6 +343,11 @@ func main() {
 			}
 		}
 
+		for _, ch := range bandcfg.ScribbleCheck(b) {
+			s.Fail(cases.GoFail{Key: fmt.Sprintf("returned-value-alias:%s:fresh:%s", c.Key(), strings.SplitN(ch, ":", 2)[0]),
+				What:   "the band keeps (and hands out again) a slice / pointer it returned to the caller: " + ch,
+				Replay: rep(map[string]interface{}{"api": "getter; overwrite the returned value; getter again", "changed": ch})})
+		}
 		var edr []int64
 		for _, v := range b.GetEnabledUplinkDataRates() {
 			edr = append(edr, int64(v))
